@@ -71,7 +71,7 @@ RET = {
     "np.round": "same", "np.around": "same", "np.abs": "same", "abs": "same", "np.sum": "real", "np.conj": "same", "np.conjugate": "same", "np.transpose": "same",
     "scipy.linalg.sqrtm": "arr", "scipy.linalg.inv": "arr", "scipy.linalg.det": "real", "np.linalg.det": "real", "np.linalg.matrix_power": "arr", "np.kron": "arr",
     "np.linalg.inv": "arr", "np.exp": "same", "np.max": "real", "np.min": "real", "np.linalg.matrix_rank": "real", "np.outer": "arr", "np.dot": "arr", "np.matmul": "arr",
-    "scipy.linalg.fractional_matrix_power": "arr", "np.zeros_like": "arr", "np.eye": "arr", "np.identity": "arr", "np.diag": "arr", "np.cos": "same", "np.sin": "same", "np.array": "same", "np.asarray": "same",
+    "scipy.linalg.fractional_matrix_power": "arr", "np.zeros_like": "arr", "np.eye": "arr", "np.identity": "arr", "np.diag": "arr", "np.cos": "same", "np.sin": "same", "round": "same", "np.array": "same", "np.asarray": "same",
 }
 PRED = {"is_density", "is_positive_semidefinite", "is_hermitian", "is_square", "is_unitary", "is_pure", "np.all", "np.any", "isinstance", "is_positive_definite"}
 CLOSE_DEFAULTS = {"rtol": 1e-05, "atol": 1e-08}
